@@ -766,6 +766,10 @@ def generate(rng, tier):
     for w in range(4 if tier == "quick" else 40):
         nm, s = suites.dwarf_world(rng, "x86" if w % 2 == 0 else "a64", nmods=3, nf=3, nprobes=30, policy="may" if w % 4 < 2 else "must")
         out.append(("world-%s-%d" % (nm, w), s))
+    # frameless-immediate opcodes whose stack size is too small for the registers they list (C09's grid: the rbp slot
+    # arithmetic must not underflow whatever the opcode says; seeded change C14-12)
+    from props import C09 as _c09
+    out += [("c09-" + n, sc) for n, sc in _c09.macho_opgrid(rng, tier)]
     for arch in ("x86", "a64"):
         nm, s = suites.empty_fde_world(rng, arch, "may" if arch == "x86" else "must")
         out.append((nm, s))
